@@ -881,7 +881,7 @@ class Engine:
                         unknown = True
                         continue
                     tv = v if isinstance(v, (bool, SB)) else (truth(v) if (is_sym(v) or isinstance(v, int)) else
-                                                               (len(v.items) > 0 if isinstance(v, SymList) else bool(v)))
+                                                               (len(v.items) > 0 if isinstance(v, SymList) else self.as_cond(v)))
                     if isinstance(tv, bool):
                         if tv != is_and:
                             return tv       # decided concretely: short circuit
